@@ -268,17 +268,18 @@ impl<'a> Compiler<'a> {
     fn scope_end(&mut self) {
         *self.scope_depth_mut() -= 1;
         let scope_depth = self.scope_depth();
-        let locals = &mut self.locals[self.function_id];
-        while locals
+        while self.locals[self.function_id]
             .last()
             .map(|l| l.depth > scope_depth)
             .unwrap_or(false)
         {
-            let var = locals.pop().unwrap();
+            let var = self.locals[self.function_id].pop().unwrap();
+            // through push_instruction, so that the instruction (CloseUpvalue can fail) has a
+            // source trace like every other one
             if var.captured {
-                self.program.bytecode.push(Instruction::CloseUpvalue as u8);
+                self.push_instruction(Instruction::CloseUpvalue);
             } else {
-                self.program.bytecode.push(Instruction::Pop as u8);
+                self.push_instruction(Instruction::Pop);
             }
         }
     }
